@@ -295,6 +295,15 @@ func TestC11(t *testing.T) {
 			// are leased elsewhere while the stream runs and become deliverable again
 			// purely by the passage of time (step "lease-lapse")
 			directed := i%5 == 4
+			large := !directed && i%7 == 6
+			if large {
+				sizes = []int{10}
+				maxMsgs, maxBytes = []int64{150, 1000, 0, 120}[r.Intn(4)], 0
+				led.maxMsgs, led.maxBytes = int(maxMsgs), 10*1024*1024
+				if maxMsgs <= 0 {
+					led.maxMsgs = 1000
+				}
+			}
 			var leaseEnd time.Time
 			if directed {
 				// byte-bound shape: something outstanding, a due message that is too big
@@ -325,7 +334,15 @@ func TestC11(t *testing.T) {
 			if directed || r.Intn(3) == 0 {
 				prePull(1 + r.Intn(3))
 			}
-			if directed {
+			if large {
+				// more than one fetch's worth (the sender fetches at most 100 at a time)
+				// under a window that is larger than that
+				publish(60 + r.Intn(40))
+				publish(60 + r.Intn(40))
+				if r.Intn(2) == 0 {
+					publish(40 + r.Intn(60))
+				}
+			} else if directed {
 				req := &pubsubpb.PublishRequest{Topic: topic}
 				var sz []int
 				for _, s := range [][]int{{40, 70}, {70, 40}, {40, 70, 70}, {40, 40, 70}}[r.Intn(4)] {
